@@ -17,10 +17,13 @@ import FitProps.C01
   composition over whole Files is `decode_encode_content` / `decode_encode_identity` below
   (FitProofs/DecodeEncode.lean, FitProofs/Replay.lean): for every File in a decidable domain
   (`fileRTB`, `fileShapeB`), `Decode (Encode f)` succeeds and returns the File's own messages slot
-  by slot, each passed through `expandComponents` where its type has component fields.  What the
-  domain leaves out (arrays; string, time and coordinate fields set in some messages of a slice but
-  not in others) is covered by the correspondence run only (real Encode → real Decode, compared with
-  the model's prediction and with the input under the property's equivalence).
+  by slot, each passed through `expandComponents` where its type has component fields, arrays padded
+  with invalid values to the profile length (`wireFile`).  The domain holds unsigned, signed and byte
+  arrays of any length up to the profile's, nil arrays and the invalid values of scalars, strings,
+  times and coordinates as fillers of a slice's shared definition; what it leaves out (string arrays,
+  which `Encode` refuses; local times; times in a zone other than UTC) is covered by the
+  correspondence run only (real Encode → real Decode, compared with the model's prediction and with
+  the input under the property's equivalence).
 -/
 namespace Fit.Props.C06
 open Fit Fit.Props.C02
